@@ -343,7 +343,7 @@ func init() {
 			name string
 			data []core.SeriesSpec
 		}
-		dss := []dsn{{"D2", dataset("D2")}, {"D3", dataset("D3")}, {"extreme", c19Data()}}
+		dss := []dsn{{"D2", dataset("D2")}, {"D3", dataset("D3")}, {"extreme", c19Data()}, {"D5", dataset("D5")}}
 		for _, q := range qs {
 			for _, d := range dss {
 				for _, w := range ws {
